@@ -1,3 +1,4 @@
+import oracle_storage
 import oracle_consumer
 import corr_array
 import corr_construct
@@ -40,8 +41,12 @@ def oracle_consumer_ops(seed, tier):
     return oracle_consumer.check(seed, tier)
 
 
+def oracle_storage_kinds(seed, tier):
+    return oracle_storage.check(seed, tier)
+
+
 def checks(tier):
-    return [corr_readmeta, corr_getitem, corr_layouts, oracle_c01, oracle_successive, oracle_consumer_ops]
+    return [corr_readmeta, corr_getitem, corr_layouts, oracle_c01, oracle_successive, oracle_consumer_ops, oracle_storage_kinds]
 
 
 def replay(payload):
